@@ -10,6 +10,9 @@ proved SQLite exception K6); and an elaboration-time walk shows no model/driver 
 Tie: the SAME scenario (generators and run_impl of c01, c02, c03, c04, c05, c11, c14 + own full pipelines + every library
 comparison creator both engines accept) is run on duckdb and sqlite (and spark in thorough) and the REAL outputs are compared
 with one another; the underlying checks' oracles say which engine deviates.
+Family "custom" (audit C06): custom SQL levels / blocking rules written in a DECLARED dialect (base_dialect_str / sql_dialect) equal to or
+different from the backend; a naive per-dialect evaluator (the _sem_* functions) decides every level and rule on every record pair under the
+declared dialect's meaning, each engine's real predict() / count_comparisons output is compared with that and the engines with one another.
 """
 from __future__ import annotations
 
@@ -62,6 +65,8 @@ def gen_pipeline(rng: random.Random, spark_ok=False):
             for col in ("first_name", "surname", "city", "age"):
                 if rng.random() < 0.08:
                     e[col] = None
+                elif col != "age" and rng.random() < 0.04:
+                    e[col] = ""  # a value, not a NULL, on every engine
             rows.append(dict(unique_id=uid, **e))
         tables.append(rows)
     return {
@@ -71,6 +76,9 @@ def gen_pipeline(rng: random.Random, spark_ok=False):
         "recall": rng.choice([0.6, 0.8, 1.0]), "em_sessions": rng.choice([1, 2]), "thr": rng.choice([0.5, 0.9, 0.2]),
         # few iterations: on tables this small a long EM run drives some m to exactly 0 and BOTH engines then raise on log2(0)
         "max_iter": rng.choice([2, 4, 6]), "shuffle": rng.randrange(1 << 30), "tag": "pipeline",
+        # how every blocking rule of the scenario (prediction, prior, EM, analysis) is handed over; "declared": CustomRule(sql, sql_dialect=<this>)
+        "rule_form": rng.choice(["str", "str", "block_on", "dict", "declared:duckdb", "declared:sqlite", "declared:spark"]),
+        "prerender": rng.random() < 0.25,
     }
 
 
@@ -89,6 +97,20 @@ def pipeline_frames(case):
 PIPE_RULES = ["l.first_name = r.first_name", "l.surname = r.surname", "l.city = r.city and l.age = r.age"]
 
 
+def pipe_rule(case, sql):
+    """The same plain equality rule in the form the scenario asks for (every form means the same on every engine)."""
+    import splink.blocking_rule_library as brl
+
+    form = case.get("rule_form", "str")
+    if form == "str":
+        return sql
+    if form == "dict":
+        return {"blocking_rule": sql}
+    if form == "block_on":
+        return brl.block_on(*re.findall(r"l\.(\w+) = r\.\1", sql))
+    return brl.CustomRule(sql, sql_dialect=form.split(":")[1])
+
+
 def pipeline_settings(case):
     import splink.comparison_level_library as cll
     import splink.comparison_library as cl
@@ -102,7 +124,7 @@ def pipeline_settings(case):
         cl.ExactMatch("city").configure(term_frequency_adjustments=case["tf"]),
         cl.CustomComparison(output_column_name="age", comparison_levels=[cll.NullLevel("age"), cll.ExactMatchLevel("age"), cll.AbsoluteDifferenceLevel("age", 2), cll.ElseLevel()]),
     ]
-    return SettingsCreator(link_type=case["link_type"], comparisons=comps, blocking_rules_to_generate_predictions=list(PIPE_RULES),
+    return SettingsCreator(link_type=case["link_type"], comparisons=comps, blocking_rules_to_generate_predictions=[pipe_rule(case, r) for r in PIPE_RULES],
                            retain_matching_columns=True, retain_intermediate_calculation_columns=True, max_iterations=case["max_iter"], em_convergence=0.001)
 
 
@@ -115,16 +137,21 @@ def run_pipeline(case: dict) -> dict:
     api = impl.make_api(case["engine"], threads=2)
     frames = pipeline_frames(case)
     k = len(frames)
-    linker = Linker(frames[0] if k == 1 else frames, pipeline_settings(case), api, input_table_aliases=None if k == 1 else c01.ALIASES[:k])
+    settings = pipeline_settings(case)
+    if case.get("prerender"):  # the same settings object rendered for the other dialects first
+        for d in ("spark", "sqlite", "duckdb"):
+            if d != case["engine"]:
+                settings.get_settings(d)
+    linker = Linker(frames[0] if k == 1 else frames, settings, api, input_table_aliases=None if k == 1 else c01.ALIASES[:k])
     out = {}
-    linker.training.estimate_probability_two_random_records_match(["l.first_name = r.first_name and l.surname = r.surname"], recall=case["recall"])
+    linker.training.estimate_probability_two_random_records_match([pipe_rule(case, "l.first_name = r.first_name and l.surname = r.surname")], recall=case["recall"])
     out["prior"] = linker._settings_obj._probability_two_random_records_match
     linker.training.estimate_u_using_random_sampling(max_pairs=1e7)
     out["u"] = c03.dump_cms(linker._settings_obj.core_model_settings)
     out["em"] = []
     for rule in ["l.surname = r.surname", "l.first_name = r.first_name"][: case["em_sessions"]]:
         try:
-            sess = linker.training.estimate_parameters_using_expectation_maximisation(rule, fix_u_probabilities=True)
+            sess = linker.training.estimate_parameters_using_expectation_maximisation(pipe_rule(case, rule), fix_u_probabilities=True)
         except Exception as e:  # noqa: BLE001
             from splink.internals.exceptions import EMTrainingException
 
@@ -145,10 +172,10 @@ def run_pipeline(case: dict) -> dict:
     out["clusters"] = {f"{r.get('source_dataset', '')}|{r['unique_id']}": str(r["cluster_id"]) for r in cl_rows}
     kw = {"unique_id_column_name": "unique_id"}
     api2 = impl.make_api(case["engine"], threads=2)
-    df = cumulative_comparisons_to_be_scored_from_blocking_rules_data(table_or_tables=pipeline_frames(case), blocking_rules=list(PIPE_RULES), link_type=case["link_type"], db_api=api2, **kw)
+    df = cumulative_comparisons_to_be_scored_from_blocking_rules_data(table_or_tables=pipeline_frames(case), blocking_rules=[pipe_rule(case, r) for r in PIPE_RULES], link_type=case["link_type"], db_api=api2, **kw)
     out["cumulative"] = [[int(r["match_key"]), int(r["row_count"]), int(r["cumulative_rows"]), float(r["cartesian"])] for r in df.to_dict(orient="records")]
     api3 = impl.make_api(case["engine"], threads=2)
-    res = count_comparisons_from_blocking_rule(table_or_tables=pipeline_frames(case), blocking_rule=PIPE_RULES[2], link_type=case["link_type"], db_api=api3, **kw)
+    res = count_comparisons_from_blocking_rule(table_or_tables=pipeline_frames(case), blocking_rule=pipe_rule(case, PIPE_RULES[2]), link_type=case["link_type"], db_api=api3, **kw)
     out["count"] = [int(res["number_of_comparisons_generated_pre_filter_conditions"]), int(res["number_of_comparisons_to_be_scored_post_filter_conditions"])]
     out["multi"] = multi
     return out
@@ -187,6 +214,11 @@ def creator_specs():
         "ExactMatch": lambda: cl.ExactMatch("s"),
         "ExactMatch(lower)": lambda: cl.ExactMatch(ColumnExpression("s").lower()),
         "ExactMatch(substr)": lambda: cl.ExactMatch(ColumnExpression("s").substr(1, 3)),
+        # the remaining ColumnExpression operations every dialect has, alone and chained
+        "ExactMatch(nullif)": lambda: cl.ExactMatch(ColumnExpression("s").nullif("")),
+        "ExactMatch(lower,substr,nullif)": lambda: cl.ExactMatch(ColumnExpression("s").lower().substr(1, 2).nullif("ma")),
+        "ExactMatch(cast_to_string)": lambda: cl.ExactMatch(ColumnExpression("n").cast_to_string()),
+        "LevenshteinAtThresholds(cast_to_string)": lambda: cl.LevenshteinAtThresholds(ColumnExpression("n").cast_to_string(), [1, 2]),
         "LevenshteinAtThresholds": lambda: cl.LevenshteinAtThresholds("s", [1, 2]),
         "DamerauLevenshteinAtThresholds": lambda: cl.DamerauLevenshteinAtThresholds("s", [1, 2]),
         "JaccardAtThresholds": lambda: cl.JaccardAtThresholds("s", [0.9, 0.5]),
@@ -270,6 +302,593 @@ def run_creator(case: dict) -> dict:
     return {"rows": pred, "levels": levels}
 
 
+# =========================================================================== own family: custom SQL with a DECLARED dialect
+# CustomLevel(sql, base_dialect_str=D) / a level dict with "base_dialect_str" / CustomRule(sql, sql_dialect=D) / a rule dict with
+# "sql_dialect" say: "this text is D's SQL".  Its meaning is then D's meaning of the text, on EVERY backend (Splink translates it from D
+# to the backend's dialect; on backend D it is used verbatim).  Without a declared dialect the text is used verbatim everywhere, so the
+# generator then only picks spellings that mean the same thing on every engine.
+# The oracle is a naive Python evaluator of a handful of SQL idioms *per dialect* (`/` on two integers, concat() vs ||, NULL handling of
+# greatest/least vs max/min, LIKE case sensitivity, position functions with differing names and argument order, ...): it decides each
+# level / rule on each record pair under the DECLARED dialect's semantics and derives the expected scored pairs, match_keys, gammas and
+# match weights; every engine's real output is compared with that, and the engines with one another.
+CUSTOM_DIALECTS = ("duckdb", "sqlite", "spark")
+CUSTOM_TYPES = {"unique_id": "int", "s": "str", "s2": "str", "n": "int", "f": "float"}
+
+
+def _t_and(a, b):
+    if a is False or b is False:
+        return False
+    return None if a is None or b is None else True
+
+
+def _t_or(a, b):
+    if a is True or b is True:
+        return True
+    return None if a is None or b is None else False
+
+
+def _t_not(a):
+    return None if a is None else (not a)
+
+
+def _cmp(op, a, b):
+    if a is None or b is None:
+        return None
+    return {"=": a == b, "<>": a != b, "<": a < b, "<=": a <= b, ">": a > b}[op]
+
+
+def _sem_div(d, a, b):
+    """a / b.  SQLite: integer division (towards zero) when both are integers, NULL on a zero divisor.  DuckDB: always floating point
+    (x/0 = +-inf, 0/0 = NaN).  Spark: floating point; a zero divisor is NULL (try_divide / non-ANSI; under ANSI it is an error)."""
+    if a is None or b is None:
+        return None
+    if b == 0:
+        if d == "duckdb":
+            return math.nan if a == 0 else math.copysign(math.inf, a)
+        return None
+    if d == "sqlite" and isinstance(a, int) and isinstance(b, int):
+        q = abs(a) // abs(b)
+        return q if (a >= 0) == (b >= 0) else -q
+    return a / b
+
+
+def _sem_mod(a, b):
+    if a is None or b is None or b == 0:
+        return None
+    return int(math.fmod(a, b))  # sign of the dividend, on every engine
+
+
+def _sem_concat_fn(d, *xs):
+    """concat(...): DuckDB skips NULL arguments, Spark returns NULL if any argument is NULL (SQLite 3.40 has no concat())."""
+    if d == "duckdb":
+        return "".join(x for x in xs if x is not None)
+    return None if any(x is None for x in xs) else "".join(xs)
+
+
+def _sem_pipe(*xs):
+    return None if any(x is None for x in xs) else "".join(xs)
+
+
+def _sem_extreme(d, pick, a, b):
+    """greatest/least (DuckDB, Spark) skip NULLs; SQLite's scalar max/min are NULL as soon as one argument is."""
+    if d == "sqlite":
+        return None if a is None or b is None else pick(a, b)
+    vals = [x for x in (a, b) if x is not None]
+    return pick(vals) if vals else None
+
+
+def _sem_round(x):
+    return None if x is None else math.copysign(math.floor(abs(x) + 0.5), x)  # half away from zero on every engine
+
+
+def _sem_like_prefix(d, x, prefix):
+    """x LIKE 'prefix%': case-insensitive (ASCII) on SQLite, case-sensitive on DuckDB and Spark."""
+    if x is None:
+        return None
+    return x.lower().startswith(prefix.lower()) if d == "sqlite" else x.startswith(prefix)
+
+
+def _q(d):
+    return "`" if d == "spark" else '"'
+
+
+# name -> spellings: the declared dialects D in which the idiom has a spelling (None = a spelling that means the same on every engine,
+#         usable without a declared dialect); sql(d, l, r, p) with l/r: (column, quote="") -> reference text; ev(d, L, R, p) -> True/False/None
+CUSTOM_TEMPLATES = {
+    # every idiom isolates ONE way in which dialects differ, so that a failure names its cause
+    "ratio_div": {  # the classic "within p of the left value": integer division on SQLite, float division elsewhere (zero divisor guarded: see zero_div)
+        "spellings": CUSTOM_DIALECTS,
+        "sql": lambda d, l, r, p: f"{l('n')} <> 0 and abs({l('n')} - {r('n')}) / {l('n')} < {p}",
+        "ev": lambda d, L, R, p: _t_and(_cmp("<>", L["n"], 0), _cmp("<", _sem_div(d, None if L["n"] is None or R["n"] is None else abs(L["n"] - R["n"]), L["n"]), p)),
+        "param": lambda rng: rng.choice([0.1, 0.25, 0.5]),
+    },
+    "zero_div": {  # a float divided by an integer that may be 0: +-inf on DuckDB, NULL on SQLite and Spark (non-ANSI)
+        "spellings": CUSTOM_DIALECTS,
+        "sql": lambda d, l, r, p: f"{l('f')} / {r('n')} > {p}",
+        "ev": lambda d, L, R, p: _cmp(">", _sem_div(d, L["f"], R["n"]), p),
+        "param": lambda rng: rng.choice([0.1, 0.5, 1]),
+    },
+    "bucket_div": {  # same bucket of width p (SQLite idiom); on DuckDB / Spark the same text is an equality of floats
+        "spellings": CUSTOM_DIALECTS,
+        "sql": lambda d, l, r, p: f"{l('n')} / {p} = {r('n')} / {p}",
+        "ev": lambda d, L, R, p: _cmp("=", _sem_div(d, L["n"], p), _sem_div(d, R["n"], p)),
+        "param": lambda rng: rng.choice([2, 5, 10]),
+    },
+    "floor_div": {  # DuckDB's integer-division operator (truncates towards zero)
+        "spellings": ("duckdb",),
+        "sql": lambda d, l, r, p: f"{l('n')} // {p} = {r('n')} // {p}",
+        "ev": lambda d, L, R, p: _cmp("=", _sem_div("sqlite", L["n"], p), _sem_div("sqlite", R["n"], p)),
+        "param": lambda rng: rng.choice([2, 5, 10]),
+    },
+    "concat_fn": {
+        "spellings": ("duckdb", "spark"),
+        "sql": lambda d, l, r, p: f"concat({l('s')}, {l('s2')}) = concat({r('s')}, {r('s2')})",
+        "ev": lambda d, L, R, p: _cmp("=", _sem_concat_fn(d, L["s"], L["s2"]), _sem_concat_fn(d, R["s"], R["s2"])),
+        "param": lambda rng: None,
+    },
+    "concat_pipe": {
+        "spellings": CUSTOM_DIALECTS + (None,),
+        "sql": lambda d, l, r, p: f"{l('s')} || {l('s2')} = {r('s')} || {r('s2')}",
+        "ev": lambda d, L, R, p: _cmp("=", _sem_pipe(L["s"], L["s2"]), _sem_pipe(R["s"], R["s2"])),
+        "param": lambda rng: None,
+    },
+    "position": {  # three names, two argument orders
+        "spellings": CUSTOM_DIALECTS + (None,),
+        "sql": lambda d, l, r, p: (f"strpos({l('s')}, {r('s2')}) > 0" if d == "duckdb" else f"locate({r('s2')}, {l('s')}) > 0" if d == "spark"
+                                   else f"instr({l('s')}, {r('s2')}) > 0"),
+        "ev": lambda d, L, R, p: None if L["s"] is None or R["s2"] is None else (R["s2"] in L["s"]),
+        "param": lambda rng: None,
+    },
+    "length_eq": {
+        "spellings": CUSTOM_DIALECTS + (None,),
+        "sql": lambda d, l, r, p: f"len({l('s')}) = len({r('s')}) + {p}" if d == "duckdb" else f"length({l('s')}) = length({r('s')}) + {p}",
+        "ev": lambda d, L, R, p: None if L["s"] is None or R["s"] is None else len(L["s"]) == len(R["s"]) + p,
+        "param": lambda rng: rng.choice([0, 0, 1]),
+    },
+    "extremes": {  # greatest/least skip NULLs, SQLite's two-argument max/min do not
+        "spellings": CUSTOM_DIALECTS,
+        "sql": lambda d, l, r, p: (f"max({l('n')}, {r('n')}) - min({l('n')}, {r('n')}) <= {p}" if d == "sqlite"
+                                   else f"greatest({l('n')}, {r('n')}) - least({l('n')}, {r('n')}) <= {p}"),
+        "ev": lambda d, L, R, p: (lambda hi, lo: _cmp("<=", None if hi is None or lo is None else hi - lo, p))(
+            _sem_extreme(d, max, L["n"], R["n"]), _sem_extreme(d, min, L["n"], R["n"])),
+        "param": lambda rng: rng.choice([0, 1, 3, 10]),
+    },
+    "substr_eq": {
+        "spellings": CUSTOM_DIALECTS + (None,),
+        "sql": lambda d, l, r, p: f"substr({l('s')}, 1, {p}) = substr({r('s')}, 1, {p})",
+        "ev": lambda d, L, R, p: _cmp("=", None if L["s"] is None else L["s"][:p], None if R["s"] is None else R["s"][:p]),
+        "param": lambda rng: rng.choice([1, 2, 3]),
+    },
+    "like_prefix": {  # LIKE ignores (ASCII) case on SQLite only
+        "spellings": CUSTOM_DIALECTS,
+        "sql": lambda d, l, r, p: f"{l('s')} like '{p}%' and {r('s')} like '{p}%'",
+        "ev": lambda d, L, R, p: _t_and(_sem_like_prefix(d, L["s"], p), _sem_like_prefix(d, R["s"], p)),
+        "param": lambda rng: rng.choice(["ma", "Ma", "jo", "m", "AL"]),
+    },
+    "mod_eq": {
+        "spellings": CUSTOM_DIALECTS + (None,),
+        "sql": lambda d, l, r, p: f"{l('n')} % {p} = {r('n')} % {p}",
+        "ev": lambda d, L, R, p: _cmp("=", _sem_mod(L["n"], p), _sem_mod(R["n"], p)),
+        "param": lambda rng: rng.choice([2, 3, 10]),
+    },
+    "round_eq": {
+        "spellings": CUSTOM_DIALECTS + (None,),
+        "sql": lambda d, l, r, p: f"round({l('f')}) = round({r('f')})",
+        "ev": lambda d, L, R, p: _cmp("=", _sem_round(L["f"]), _sem_round(R["f"])),
+        "param": lambda rng: None,
+    },
+    "quoted_eq": {  # identifier quoting: " in DuckDB / SQLite, ` in Spark (where "x" is a string literal)
+        "spellings": CUSTOM_DIALECTS,
+        "sql": lambda d, l, r, p: f"{l('s', _q(d))} = {r('s', _q(d))}",
+        "ev": lambda d, L, R, p: _cmp("=", L["s"], R["s"]),
+        "param": lambda rng: None,
+    },
+    "ifnull_eq": {
+        "spellings": CUSTOM_DIALECTS + (None,),
+        "sql": lambda d, l, r, p: f"ifnull({l('s')}, '') = ifnull({r('s2')}, '')",
+        "ev": lambda d, L, R, p: (L["s"] or "") == (R["s2"] or ""),
+        "param": lambda rng: None,
+    },
+    "not_distinct": {
+        "spellings": CUSTOM_DIALECTS + (None,),
+        "sql": lambda d, l, r, p: f"{l('s2')} is not distinct from {r('s2')}",
+        "ev": lambda d, L, R, p: L["s2"] == R["s2"],
+        "param": lambda rng: None,
+    },
+    "case_absdiff": {
+        "spellings": CUSTOM_DIALECTS + (None,),
+        "sql": lambda d, l, r, p: f"case when {l('n')} > {r('n')} then {l('n')} - {r('n')} else {r('n')} - {l('n')} end <= {p}",
+        "ev": lambda d, L, R, p: None if L["n"] is None or R["n"] is None else abs(L["n"] - R["n"]) <= p,
+        "param": lambda rng: rng.choice([0, 1, 3, 10]),
+    },
+}
+def _level_ref(side):
+    return lambda col, quote="": f"{quote}{col}_{side}{quote}"
+
+
+def _rule_ref(side):
+    return lambda col, quote="": f"{side}.{quote}{col}{quote}"
+
+
+def custom_sql(leaf, kind):
+    t = CUSTOM_TEMPLATES[leaf["tpl"]]
+    mk = _level_ref if kind == "level" else _rule_ref
+    return t["sql"](leaf["declared"], mk("l"), mk("r"), leaf["p"])
+
+
+def custom_eval(node, engine, L, R):
+    """Three-valued truth of a level / rule tree on the ordered record pair (L, R): each leaf under the semantics of ITS declared dialect
+    (the engine's own when none is declared: the text is then run verbatim)."""
+    if "op" in node:
+        vals = [custom_eval(a, engine, L, R) for a in node["args"]]
+        if node["op"] == "not":
+            return _t_not(vals[0])
+        out = vals[0]
+        for v in vals[1:]:
+            out = _t_and(out, v) if node["op"] == "and" else _t_or(out, v)
+        return out
+    return CUSTOM_TEMPLATES[node["tpl"]]["ev"](node["declared"] or engine, L, R, node["p"])
+
+
+def custom_leaves(node):
+    if "op" in node:
+        return [x for a in node["args"] for x in custom_leaves(a)]
+    return [node]
+
+
+CUSTOM_STRINGS = ["martha", "jones", "albert", "mamba"]
+CUSTOM_INTS = [-7, -3, 0, 1, 2, 3, 7, 9, 10, 11, 20, 27, 30, 33, 40, 45, 60, 66, 100, 101, 110]
+
+
+def gen_custom_rows(rng, zero_ok=True):
+    """6-10 records: strings split into (s, s2) at a random place with a NULL or '' on either side (so concat() and || differ and
+    differently split records concatenate to the same text), mixed case (LIKE), integers around ratios of exactly 0.1 / 0.25 / 0.5 of
+    each other incl. negatives and 0 (integer vs float division), floats on .5 (rounding), NULLs in every column."""
+    rows = []
+    ints = [x for x in CUSTOM_INTS if zero_ok or x != 0]
+    for uid in range(1, rng.randint(6, 10) + 1):
+        w = rng.choice(CUSTOM_STRINGS)
+        k = rng.randint(0, len(w))
+        s, s2 = w[:k], w[k:]
+        x = rng.random()
+        if x < 0.2:
+            s, s2 = (None, w) if rng.random() < 0.5 else (w, None)
+        elif x < 0.3:
+            s, s2 = ("", w) if rng.random() < 0.5 else (w, "")
+        elif x < 0.36:
+            s, s2 = None, None
+        if s and rng.random() < 0.3:
+            s = rng.choice([s.capitalize(), s.upper()])
+        n = rng.choice(ints) if rng.random() < 0.88 else None
+        bases = [r["n"] for r in rows if r["n"] is not None]
+        if n is not None and bases and rng.random() < 0.35:  # a partner at an exact ratio of an earlier value
+            base = rng.choice(bases)
+            n = rng.choice([base, base + base // 10, base + base // 4, base + 1, base * 2])
+        if n == 0 and not zero_ok:
+            n = 1
+        if rng.random() < 0.1:
+            f = None
+        elif rng.random() < 0.7:
+            f = rng.choice([0.5, 1.5, 2.5, -0.5, -1.5, 2.4999, 3.0, 2.5000001])
+        else:
+            f = (n or 0) + 0.5
+        rows.append({"unique_id": uid, "s": s, "s2": s2, "n": n, "f": f})
+    return rows
+
+
+def _gen_leaf(rng, need_neutral=False):
+    while True:
+        name = rng.choice(list(CUSTOM_TEMPLATES))
+        t = CUSTOM_TEMPLATES[name]
+        declared = rng.choice([d for d in t["spellings"] if d is not None] * 2 + ([None] if None in t["spellings"] else []))
+        if need_neutral and declared is not None:
+            continue
+        return {"tpl": name, "p": t["param"](rng), "declared": declared}
+
+
+def _gen_tree(rng, **kw):
+    x = rng.random()
+    if x < 0.7:
+        return _gen_leaf(rng, **kw)
+    if x < 0.8:
+        return {"op": "not", "args": [_gen_leaf(rng, **kw)]}
+    return {"op": rng.choice(["and", "or"]), "args": [_gen_leaf(rng, **kw), _gen_leaf(rng, **kw)]}
+
+
+def gen_custom(rng, spark_ok=False):
+    """Levels and blocking rules given as custom SQL with / without a declared dialect, in every form the public API accepts."""
+    rows = gen_custom_rows(rng, zero_ok=not spark_ok)  # Spark 4 runs ANSI: a zero divisor is an error there, not a value
+    comparisons = []
+    for ci in range(rng.choice([1, 1, 2])):
+        form = rng.choice(["creator", "creator", "dict_levels", "dict_comparison", "mixed"])
+        levels = []
+        for _ in range(rng.choice([1, 2, 2, 3])):
+            node = _gen_tree(rng) if form in ("creator", "mixed") else _gen_leaf(rng)
+            m, u = round(rng.uniform(0.05, 0.9), 2), round(rng.uniform(0.05, 0.9), 2)
+            levels.append({"cond": node, "m": m, "u": u})
+        comparisons.append({"name": f"c{ci}", "form": form, "null_col": rng.choice([None, None, "n", "s", "s2"]), "levels": levels,
+                            "else_m": round(rng.uniform(0.05, 0.9), 2), "else_u": round(rng.uniform(0.05, 0.9), 2)})
+    rules = []
+    for _ in range(rng.choice([0, 1, 1, 2, 3])):
+        form = rng.choice(["creator", "creator", "dict", "tree"])
+        cond = _gen_tree(rng) if form == "tree" else _gen_leaf(rng)
+        if form == "tree" and "op" not in cond:
+            form = "creator"
+        rules.append({"cond": cond, "form": form})
+    if rng.random() < 0.25:  # a rule given as a bare string: no way to declare a dialect
+        rules.insert(rng.randint(0, len(rules)), {"cond": _gen_leaf(rng, need_neutral=True), "form": "str"})
+    return {"rows": rows, "comparisons": comparisons, "rules": rules, "prior": rng.choice([0.1, 0.3, 0.01]), "prerender": rng.random() < 0.3,
+            "same_object_twice": rng.random() < 0.2, "count_rule": rng.random() < 0.5, "shuffle": rng.randrange(1 << 30), "tag": "custom"}
+
+
+def _custom_level_creator(node):
+    import splink.comparison_level_library as cll
+
+    if "op" in node:
+        args = [_custom_level_creator(a) for a in node["args"]]
+        return cll.Not(args[0]) if node["op"] == "not" else (cll.And if node["op"] == "and" else cll.Or)(*args)
+    kw = {} if node["declared"] is None else {"base_dialect_str": node["declared"]}
+    return cll.CustomLevel(custom_sql(node, "level"), **kw)
+
+
+def _custom_level_dict(node, m, u):
+    d = {"sql_condition": custom_sql(node, "level"), "label_for_charts": node["tpl"], "m_probability": m, "u_probability": u}
+    if node["declared"] is not None:
+        d["base_dialect_str"] = node["declared"]
+    return d
+
+
+def _custom_rule_creator(node):
+    import splink.internals.blocking_rule_library as brl  # Or is not re-exported by splink.blocking_rule_library
+
+    if "op" in node:
+        args = [_custom_rule_creator(a) for a in node["args"]]
+        return brl.Not(args[0]) if node["op"] == "not" else (brl.And if node["op"] == "and" else brl.Or)(*args)
+    return brl.CustomRule(custom_sql(node, "rule"), sql_dialect=node["declared"])
+
+
+def custom_rule_input(rule):
+    """The rule in the form the case asks for: creator object, dict, creator tree, or bare string."""
+    node = rule["cond"]
+    if rule["form"] == "str":
+        return custom_sql(node, "rule")
+    if rule["form"] == "dict":
+        d = {"blocking_rule": custom_sql(node, "rule")}
+        if node["declared"] is not None:
+            d["sql_dialect"] = node["declared"]
+        return d
+    return _custom_rule_creator(node)
+
+
+def custom_settings(case):
+    import splink.comparison_level_library as cll
+    import splink.comparison_library as cl
+    from splink import SettingsCreator
+
+    comps = []
+    for c in case["comparisons"]:
+        form = c["form"]
+        if form in ("creator", "mixed"):
+            levels = [cll.NullLevel(c["null_col"])] if c["null_col"] else []
+            for i, lv in enumerate(c["levels"]):
+                if form == "mixed" and i % 2 == 1 and "op" not in lv["cond"]:
+                    levels.append(_custom_level_dict(lv["cond"], lv["m"], lv["u"]))
+                else:
+                    levels.append(_custom_level_creator(lv["cond"]).configure(m_probability=lv["m"], u_probability=lv["u"]))
+            levels.append(cll.ElseLevel().configure(m_probability=c["else_m"], u_probability=c["else_u"]))
+            comps.append(cl.CustomComparison(output_column_name=c["name"], comparison_levels=levels))
+        else:
+            levels = [{"sql_condition": f"{c['null_col']}_l IS NULL OR {c['null_col']}_r IS NULL", "label_for_charts": "null", "is_null_level": True}] if c["null_col"] else []
+            levels += [_custom_level_dict(lv["cond"], lv["m"], lv["u"]) for lv in c["levels"]]
+            levels.append({"sql_condition": "ELSE", "label_for_charts": "else", "m_probability": c["else_m"], "u_probability": c["else_u"]})
+            if form == "dict_levels":
+                comps.append(cl.CustomComparison(output_column_name=c["name"], comparison_levels=levels))
+            else:  # the whole comparison as a dict
+                comps.append({"output_column_name": c["name"], "comparison_levels": levels})
+    return SettingsCreator(link_type="dedupe_only", comparisons=comps, blocking_rules_to_generate_predictions=[custom_rule_input(r) for r in case["rules"]],
+                           retain_matching_columns=True, retain_intermediate_calculation_columns=True, probability_two_random_records_match=case["prior"])
+
+
+def custom_frame(case):
+    from harness import impl
+
+    rows = list(case["rows"])
+    random.Random(case.get("shuffle", 0)).shuffle(rows)
+    return impl.typed_frame(rows, CUSTOM_TYPES)
+
+
+def run_custom(case: dict) -> dict:
+    from splink import Linker
+    from splink.internals.blocking_analysis import count_comparisons_from_blocking_rule
+
+    from harness import impl
+
+    eng = case["engine"]
+    settings = custom_settings(case)
+    if case.get("prerender"):
+        # the same settings object is first rendered for the other dialects (what a user comparing backends does)
+        for d in ("spark", "sqlite", "duckdb", "postgres"):
+            if d != eng:
+                try:
+                    settings.get_settings(d)
+                except Exception:  # noqa: BLE001  a dialect may refuse
+                    pass
+    out = {}
+    if case.get("same_object_twice"):
+        Linker(custom_frame(case), settings, impl.make_api(eng, threads=2))  # a first linker from the same settings object
+    linker = Linker(custom_frame(case), settings, impl.make_api(eng, threads=2))
+    so = linker._settings_obj
+    out["levels"] = {c.output_column_name: [l.sql_condition for l in c.comparison_levels] for c in so.comparisons}
+    out["rules_sql"] = [br.blocking_rule_sql for br in so._blocking_rules_to_generate_predictions]
+    pred = {}
+    for r in linker.inference.predict().as_record_dict():
+        key = f"{r['unique_id_l']}-{r['unique_id_r']}"
+        if key in pred:
+            pred[key]["dup"] = pred[key].get("dup", 1) + 1
+            continue
+        pred[key] = {c: v for c, v in r.items() if c.startswith(("gamma_", "bf_", "match_"))}
+    out["rows"] = pred
+    if case.get("count_rule") and case["rules"]:
+        res = count_comparisons_from_blocking_rule(table_or_tables=custom_frame(case), blocking_rule=custom_rule_input(case["rules"][0]), link_type="dedupe_only",
+                                                   db_api=impl.make_api(eng, threads=2), unique_id_column_name="unique_id")
+        out["count"] = int(res["number_of_comparisons_to_be_scored_post_filter_conditions"])
+    return out
+
+
+def custom_expected(case, engine):
+    """What the declared meanings imply: {pair key: {match_key, gamma_<c>.., match_weight}} and the count of the first rule."""
+    rows = sorted(case["rows"], key=lambda r: r["unique_id"])
+    exp = {}
+    first_rule_count = 0
+    for i, L in enumerate(rows):
+        for R in rows[i + 1:]:  # dedupe_only: the record with the smaller unique_id is the left one
+            truths = [custom_eval(r["cond"], engine, L, R) is True for r in case["rules"]]
+            first_rule_count += bool(truths and truths[0])
+            if case["rules"] and not any(truths):
+                continue
+            row = {"match_key": str(truths.index(True)) if case["rules"] else "0"}
+            logbf = math.log2(case["prior"] / (1 - case["prior"]))
+            for c in case["comparisons"]:
+                n = len(c["levels"])
+                if c["null_col"] and (L[c["null_col"]] is None or R[c["null_col"]] is None):
+                    g = -1
+                else:
+                    g = 0
+                    for k, lv in enumerate(c["levels"]):
+                        if custom_eval(lv["cond"], engine, L, R) is True:
+                            g = n - k
+                            break
+                    m, u = (c["else_m"], c["else_u"]) if g == 0 else (c["levels"][n - g]["m"], c["levels"][n - g]["u"])
+                    logbf += math.log2(m / u)
+                row[f"gamma_{c['name']}"] = g
+            row["match_weight"] = logbf
+            exp[f"{L['unique_id']}-{R['unique_id']}"] = row
+    return exp, first_rule_count
+
+
+def _leaf_tag(leaf):
+    return f"{leaf['tpl']} declared={leaf['declared']}"
+
+
+def custom_verdict(case, engine, r):
+    """Independent decision on ONE engine's real output.  Returns [(kind, node, text)]: kind in level / rule / other, node = the condition
+    tree the engine and the declared meaning disagree on (None where no single condition is at fault)."""
+    exp, cnt = custom_expected(case, engine)
+    out = []
+    dup = [k for k, v in r["rows"].items() if "dup" in v]
+    if dup:
+        out.append(("other", None, f"pair {dup[0]} is scored {r['rows'][dup[0]]['dup']} times"))
+    for key in sorted(set(exp) ^ set(r["rows"])):
+        a, b = (int(x) for x in key.split("-"))
+        if a > b:
+            out.append(("other", None, f"pair {key} has the larger unique_id on the left"))
+            continue
+        if key in r["rows"]:  # scored, but no rule holds: the rule the engine says it used (the only one when there is no match_key)
+            k = int(r["rows"][key].get("match_key") or 0)
+            what = "is scored but no blocking rule holds under the declared meaning"
+        else:
+            k = int(exp[key]["match_key"])
+            what = f"is not scored although blocking rule {k} holds under the declared meaning"
+        node = case["rules"][k]["cond"] if k < len(case["rules"]) else None
+        out.append(("rule", node, f"pair {key} {what}; rules run: {r.get('rules_sql')}"))
+    for key in sorted(set(exp) & set(r["rows"])):
+        e, x = exp[key], r["rows"][key]
+        # predict() only emits match_key when there are several rules
+        if (len(case["rules"]) > 1 or "match_key" in x) and str(x.get("match_key")) != e["match_key"]:
+            k = min(int(e["match_key"]), int(x.get("match_key") or 0))  # the earlier rule is the one taken as true by one side only
+            out.append(("rule", case["rules"][k]["cond"] if k < len(case["rules"]) else None,
+                        f"pair {key}: match_key {x.get('match_key')}, expected {e['match_key']}; rules run: {r.get('rules_sql')}"))
+            continue
+        bad_gamma = False
+        for c in case["comparisons"]:
+            col = f"gamma_{c['name']}"
+            if col not in x:
+                out.append(("other", None, f"pair {key}: no column {col}"))
+                bad_gamma = True
+                continue
+            if int(x[col]) != e[col]:
+                bad_gamma = True
+                n = len(c["levels"])
+                hi = max(int(x[col]), e[col])  # the higher of the two levels is the one taken as true by one side only
+                out.append(("level", c["levels"][n - hi]["cond"] if 1 <= hi <= n else None,
+                            f"pair {key}: {col} = {x[col]}, expected {e[col]} under the declared meaning; level SQL run: {r['levels'].get(c['name'])}"))
+        if not bad_gamma and not fclose(x["match_weight"], e["match_weight"], W_REL, W_ABS):
+            out.append(("other", None, f"pair {key}: match_weight {x['match_weight']}, expected {e['match_weight']} from the gammas and the given m/u"))
+    if "count" in r and r["count"] != cnt:
+        out.append(("rule", case["rules"][0]["cond"], f"count_comparisons_from_blocking_rule: {r['count']} comparisons post filter, expected {cnt} under the declared meaning"))
+    return out
+
+
+def custom_leaf_audit(case, engine, kind, leaf):
+    """LABELLING aid, not part of the verdict: the leaf alone is rendered by the real creator for `engine` and evaluated by that engine on
+    every record pair; returns None when that equals the leaf's declared meaning on every pair, else a short text."""
+    if engine not in ("duckdb", "sqlite"):
+        return None
+    try:
+        if kind == "level":
+            sql = _custom_level_creator(leaf).get_comparison_level(engine).sql_condition
+            cols = ", ".join(f"l.{c} as {c}_l, r.{c} as {c}_r" for c in ("s", "s2", "n", "f"))
+            q = f"select ul, ur, case when {sql} then 1 else 0 end from (select l.unique_id as ul, r.unique_id as ur, {cols} from t as l, t as r where l.unique_id < r.unique_id)"
+        else:
+            sql = _custom_rule_creator(leaf).get_blocking_rule(engine).blocking_rule_sql
+            q = f"select l.unique_id, r.unique_id, case when {sql} then 1 else 0 end from t as l, t as r where l.unique_id < r.unique_id"
+    except Exception as e:  # noqa: BLE001
+        return f"rendering it for {engine} raises {type(e).__name__}"
+    df = custom_frame(case)  # noqa: F841  (DuckDB reads the local name)
+    try:
+        if engine == "duckdb":
+            import duckdb
+
+            con = duckdb.connect()
+            con.execute("create table t as select * from df")
+        else:
+            import sqlite3
+
+            con = sqlite3.connect(":memory:")
+            df.to_sql("t", con, index=False)
+        got = {(a, b): bool(v) for a, b, v in con.execute(q).fetchall()}
+    except Exception as e:  # noqa: BLE001
+        return f"{engine} raises on `{sql}`: {str(e)[:120]}"
+    by_id = {x["unique_id"]: x for x in case["rows"]}
+    for (a, b), v in sorted(got.items()):
+        if v != (custom_eval(leaf, engine, by_id[a], by_id[b]) is True):
+            return f"`{sql}` is {v} on pair {a}-{b}, its declared meaning is {not v}"
+    return None
+
+
+def custom_label(case, engine, kind, node):
+    """(stage, idiom, declared) naming the single idiom at fault where the leaf audit can tell."""
+    if node is None:
+        return "no single condition", None, None
+    leaves = custom_leaves(node)
+    bad = [lf for lf in leaves if custom_leaf_audit(case, engine, kind, lf)] if len(leaves) > 1 else leaves
+    if not bad:
+        return "unattributed: " + " & ".join(sorted({_leaf_tag(lf) for lf in leaves})), None, None
+    lf = sorted(bad, key=_leaf_tag)[0]
+    return _leaf_tag(lf), lf["tpl"], lf["declared"]
+
+
+def custom_all_leaves(case):
+    return ([("level", lf) for c in case["comparisons"] for lv in c["levels"] for lf in custom_leaves(lv["cond"])]
+            + [("rule", lf) for rl in case["rules"] for lf in custom_leaves(rl["cond"])])
+
+
+def custom_translation_visible(case, engine):
+    """Does the data distinguish the declared meaning of some translated leaf from what the same text means on `engine`?"""
+    rows = sorted(case["rows"], key=lambda r: r["unique_id"])
+    for _, lf in custom_all_leaves(case):
+        if lf["declared"] in (None, engine):
+            continue
+        if engine not in CUSTOM_TEMPLATES[lf["tpl"]]["spellings"] or custom_sql(dict(lf, declared=engine), "level") != custom_sql(lf, "level"):
+            return True  # the text itself is not valid / differently spelled on the engine
+        ev = CUSTOM_TEMPLATES[lf["tpl"]]["ev"]
+        for i, L in enumerate(rows):
+            for R in rows[i + 1:]:
+                if ev(lf["declared"], L, R, lf["p"]) != ev(engine, L, R, lf["p"]):
+                    return True
+    return False
+
+
 # =========================================================================== generators per family (engine-free base cases)
 def gen_blocking(rng):
     return c01.gen_case(rng, engine="sqlite")  # "sqlite": plain rules only, no arrays, no salting — the features every backend has
@@ -331,9 +950,9 @@ def prep(family, case):
 
 
 RUNNERS = {"blocking": c01.run_impl, "score": c02.run_impl, "em": c03.run_impl, "estim": c04.run_impl, "cluster": c05.run_impl,
-           "multi": c11.run_impl, "analysis": c14.run_impl, "pipeline": run_pipeline, "creator": run_creator}
+           "multi": c11.run_impl, "analysis": c14.run_impl, "pipeline": run_pipeline, "creator": run_creator, "custom": run_custom}
 GENS = {"blocking": gen_blocking, "score": gen_score, "em": gen_em, "estim": gen_estim, "cluster": gen_cluster, "multi": gen_multi,
-        "analysis": gen_analysis, "pipeline": gen_pipeline}
+        "analysis": gen_analysis, "pipeline": gen_pipeline, "custom": gen_custom}
 
 
 def run_job(job):
@@ -622,6 +1241,15 @@ def diff(family, case, ra, rb):
         if set(ra["rows"]) != set(rb["rows"]):
             return "scored pair sets differ", None
         return diff_rowdict(ra["rows"], rb["rows"], "pair"), None
+    if family == "custom":
+        if set(ra["rows"]) != set(rb["rows"]):
+            return f"scored pair sets differ: {sorted(set(ra['rows']) ^ set(rb['rows']))[:4]}; rules run: {ra.get('rules_sql')} vs {rb.get('rules_sql')}", None
+        d = diff_rowdict(ra["rows"], rb["rows"], "pair")
+        if d:
+            return f"{d}; level SQL run: {ra.get('levels')} vs {rb.get('levels')}", None
+        if ra.get("count") != rb.get("count"):
+            return f"count_comparisons_from_blocking_rule: {ra.get('count')} vs {rb.get('count')}", None
+        return None, None
     raise ValueError(family)
 
 
@@ -690,6 +1318,27 @@ def has_m_zero(family, ok_results):
     return any(l is not None and l["mObs"] and l["m"] == 0 for t in thetas for lv in t["comparisons"].values() for l in lv)
 
 
+def count_custom(ctx, case, engines):
+    leaves = [("level", c["form"], lf) for c in case["comparisons"] for lv in c["levels"] for lf in custom_leaves(lv["cond"])]
+    leaves += [("rule", rl["form"], lf) for rl in case["rules"] for lf in custom_leaves(rl["cond"])]
+    for kind, form, lf in leaves:
+        ctx.count("custom_idiom", f"{kind}: {lf['tpl']}")
+        ctx.count("custom_form", f"{kind} given as {form}")
+        for e in engines:
+            how = "no dialect declared (verbatim)" if lf["declared"] is None else "declared = backend (verbatim)" if lf["declared"] == e else f"declared {lf['declared']} -> translated to {e}"
+            ctx.count("custom_declared_vs_backend", f"{kind}: {how}")
+    ctx.count("custom_composition", sorted({n["op"] for c in case["comparisons"] for lv in c["levels"] for n in [lv["cond"]] if "op" in n} | {"rule-" + rl["cond"]["op"] for rl in case["rules"] if "op" in rl["cond"]}) or "leaves only")
+    ctx.count("custom_rules", len(case["rules"]))
+    ctx.count("custom_null_level", bool([c for c in case["comparisons"] if c["null_col"]]))
+    for flag in ("prerender", "same_object_twice", "count_rule"):
+        ctx.count("custom_" + flag, bool(case.get(flag)))
+    for e in engines:
+        ctx.count("custom_translation_visible_in_data", f"{e}: {custom_translation_visible(case, e)}")
+    exp, _ = custom_expected(case, "duckdb")
+    ctx.count("custom_pairs_in_a_custom_level", sum(1 for row in exp.values() for k, v in row.items() if k.startswith("gamma_") and v > 0))
+    ctx.count("custom_expected_pairs", "none" if not exp else "some")
+
+
 def evaluate(ctx, scenarios, engines, parallel=True, record=True):
     """scenarios: [(family, base case)].  Returns [(family, case, what, detail dict, match_info)] for disagreements."""
     jobs = [(f, dict(c, engine=e)) for f, c in scenarios for e in engines]
@@ -732,6 +1381,10 @@ def evaluate(ctx, scenarios, engines, parallel=True, record=True):
                 ctx.count("score_threshold", bool(case.get("thr")))
             if family == "pipeline":
                 ctx.count("pipeline_surname_cmp", case["surname_cmp"]); ctx.count("pipeline_em_sessions", case["em_sessions"]); ctx.count("pipeline_tf", case["tf"])
+                ctx.count("pipeline_rule_form", case.get("rule_form", "str")); ctx.count("pipeline_prerender", bool(case.get("prerender")))
+                ctx.count("pipeline_has_empty_string", any(v == "" for t in case["tables"] for r in t for v in r.values()))
+            if family == "custom":
+                count_custom(ctx, case, engines)
             mr = model_request_engine_free(family, case)
             if mr is not None:
                 ctx.count("model_request_engine_free", mr)
@@ -762,9 +1415,27 @@ def evaluate(ctx, scenarios, engines, parallel=True, record=True):
             e = sorted(errs)[0]
             r = errs[e]
             info = {"failure": "real code raised", "engine": e, "has_u_zero": has_u_zero(family, case, ok), "has_m_zero": has_m_zero(family, ok), "family": family, "error_type": r["__error__"]}
-            problems.append((family, case, f"{family}: {e} raised {r['__error__']} while {sorted(ok) or 'the other engines raised something else'} returned a result",
+            if family == "custom":  # no "unsupported" exemption here: every idiom of this family exists on every engine, so what Splink renders must run
+                raising = [(k, lf) for k, lf in custom_all_leaves(case) if (custom_leaf_audit(case, e, k, lf) or "").find("raises") >= 0]
+                lf = sorted((lf for _, lf in raising), key=_leaf_tag)[0] if raising else None
+                info.update(stage=_leaf_tag(lf) if lf else "no single condition raises", idiom=lf and lf["tpl"], declared=lf and lf["declared"])
+            problems.append((family, case, f"{family}: {e} raised {r['__error__']} while {sorted(ok) or 'the other engines raised something else'} returned a result" + (f" ({info['stage']})" if family == "custom" else ""),
                              {"error": {x: {"type": y["__error__"], "text": y["text"][:600]} for x, y in errs.items()}, "outputs": ok}, info, results, list(engines)))
             continue
+        if family == "custom":
+            found = {}
+            for e in sorted(ok, key=list(engines).index):
+                for kind, node, text in custom_verdict(case, e, ok[e]):
+                    stage, idiom, declared = custom_label(case, e, kind, node)
+                    found.setdefault((e, stage), (text, idiom, declared))
+            for (e, stage), (text, idiom, declared) in found.items():
+                info = {"failure": "real output differs from the declared meaning", "engine": e, "family": family, "stage": stage, "idiom": idiom, "declared": declared}
+                problems.append((family, case, f"{family}: {e} does not compute what the custom SQL means in its declared dialect ({stage})",
+                                 {"difference": text, "expected": custom_expected(case, e)[0], "outputs": {e: ok[e]}}, info, results, list(engines)))
+            if found:
+                continue
+            if record:
+                ctx.count("custom_oracle", "every engine's output equals the declared meaning")
         names = sorted(ok, key=list(engines).index)
         if len(names) < 2:
             if record:
@@ -801,7 +1472,7 @@ def evaluate(ctx, scenarios, engines, parallel=True, record=True):
 # =========================================================================== shrinking
 def shrink(family, case, engines, still):
     cur = jr(case)
-    budget = 24
+    budget = 16 if family == "custom" else 24
 
     def attempt(cand):
         nonlocal budget, cur
@@ -824,15 +1495,26 @@ def shrink(family, case, engines, still):
                     cand = jr(cur)
                     del cand["tables"][ti][ri]
                     changed |= attempt(cand)
-        if "rows" in cur:
+        if "rows" in cur and not (family == "custom" and budget < 8):
             for ri in range(len(cur["rows"]) - 1, -1, -1):
                 if len(cur["rows"]) <= 2:
                     break
                 cand = jr(cur)
                 del cand["rows"][ri]
                 changed |= attempt(cand)
+        if family == "custom":
+            for ci in range(len(cur["comparisons"])):
+                for k in range(len(cur["comparisons"][ci]["levels"]) - 1, -1, -1):
+                    if len(cur["comparisons"][ci]["levels"]) <= 1:
+                        break
+                    cand = jr(cur)
+                    del cand["comparisons"][ci]["levels"][k]
+                    changed |= attempt(cand)
+            for flag in ("prerender", "same_object_twice", "count_rule"):
+                if cur.get(flag):
+                    changed |= attempt(dict(jr(cur), **{flag: False}))
         for key in ("comparisons", "rules", "sessions", "edges"):
-            if key in cur and family != "estim":
+            if key in cur and family != "estim" and not (family == "custom" and key == "rules" and len(cur[key]) == 1):
                 for k in range(len(cur[key]) - 1, -1, -1):
                     if len(cur[key]) <= 1:
                         break
@@ -844,7 +1526,7 @@ def shrink(family, case, engines, still):
 
 # =========================================================================== run
 def scenarios_for(ctx, rng, thorough_scale):
-    q = {"blocking": 120, "score": 150, "em": 60, "estim": 120, "cluster": 100, "multi": 80, "analysis": 80, "pipeline": 30}
+    q = {"blocking": 120, "score": 150, "em": 60, "estim": 120, "cluster": 100, "multi": 80, "analysis": 80, "pipeline": 30, "custom": 150}
     out = []
     for fam, n in q.items():
         for _ in range(ctx.budget(n, n * thorough_scale)):
@@ -864,7 +1546,13 @@ def run(ctx: core.Ctx):
         "cluster (c05.decorate on 9 graph families, n<=30, standalone function and linker method, prob/weight thresholds), multi (c11 thresholds lists, cluster columns or summary stats), "
         "analysis (c14.gen_case: pre/post counts, cumulative counts, cartesian, n_largest_blocks), pipeline (own: 1-2 tables of 10-16 noisy duplicates; prior from a deterministic rule, full-sample u, 1-2 EM sessions, "
         "predict with TF adjustments, clustering at a threshold, cumulative + single-rule blocking counts; library creators Levenshtein/JaroWinkler/DamerauLevenshtein/ExactMatch/CustomComparison), "
-        "creator (every class of splink.comparison_library with a specimen on a 10-row value grid incl. NULL and empty strings). Spark (thorough): a few scenarios per family, levenshtein only. "
+        "creator (every class of splink.comparison_library with a specimen on a 10-row value grid incl. NULL and empty strings), "
+        "custom (own: 6-10 records, 1-2 comparisons of 1-3 custom-SQL levels and 0-4 custom-SQL blocking rules, each a SQL idiom whose spelling or meaning depends on the dialect "
+        "(integer '/', '//', concat() vs ||, greatest/least vs max/min, LIKE, strpos/instr/locate, len/length, quoted identifiers, %, round, ifnull, IS NOT DISTINCT FROM, CASE) "
+        "written in a DECLARED dialect duckdb/sqlite/spark (base_dialect_str / sql_dialect) equal to or different from the backend, or with none declared; given as CustomLevel / level dict / "
+        "comparison dict / And-Or-Not of CustomLevels, CustomRule / rule dict / And-Or-Not of CustomRules / bare string; same settings object pre-rendered for other dialects or used for two linkers; "
+        "fixed m/u; predict + count_comparisons_from_blocking_rule; a naive per-dialect evaluator decides every level and rule on every pair under the declared dialect's meaning). "
+        "Spark (thorough): a few scenarios per family, levenshtein only. "
         "non-trivial = every scenario (all compare at least two real executions); distinct = hash of (family, case)."
     )
     ctx.assumptions = [
@@ -881,6 +1569,9 @@ def run(ctx: core.Ctx):
         "Spark's jaro_sim / jaro_winkler / damerau_levenshtein / jaccard are Scala UDFs whose jar does not load on the installed Spark 4: the table records them as notRunnable and no theorem speaks about them",
         "Spark: the hand-written level/rule SQL of the c02/c03/c04 generators is given with backtick-quoted identifiers instead of double-quoted ones (a double-quoted token is a string literal in Spark SQL); Spark scenarios run in child processes, 8 per JVM",
         "SQL semantics of each engine for the atoms (=, <=, abs, substr, GROUP BY, joins) are trusted; DuckDB is the reference as the property says",
+        "custom family: the meaning of custom SQL with a declared dialect is that dialect's meaning of the text (c06._sem_*: DuckDB '/' is floating point and concat() skips NULLs, SQLite '/' on two integers truncates, "
+        "its LIKE ignores ASCII case and its scalar max/min are NULL on a NULL argument, Spark concat() is NULL on NULL; a zero divisor is NULL on SQLite/Spark(non-ANSI) and +-inf/NaN on DuckDB); "
+        "these per-dialect semantics are validated by the verbatim cases (declared dialect = backend), where the same oracle must reproduce the engine's own result",
     ]
     errs, table = tdialect.write(("duckdb", "sqlite", "spark") if ctx.thorough else ("duckdb", "sqlite"))
     ctx.lean = core.lean_check(PROP, ctx.thorough)
@@ -930,24 +1621,31 @@ def run(ctx: core.Ctx):
             if fam == "em":
                 c["max_iter"] = 3  # every EM iteration is several Spark jobs
         spark_scn += [("pipeline", dict(jr(gen_pipeline(rng_s, spark_ok=True)), max_iter=2)) for _ in range(2)]
+        spark_scn += [("custom", jr(gen_custom(rng_s, spark_ok=True))) for _ in range(8)]
         spark_scn += [("creator", {"creator": name, "shuffle": 1}) for name in specs if name not in CORPUS_ONLY_CREATORS]
         problems += evaluate(ctx, spark_scn, ["duckdb", "sqlite", "spark"])
     reported = set()
     for family, case, what, detail, info, results, engs in problems:
         cls = (family, info["failure"], info.get("stage"), info["engine"])
+        if family == "custom":  # every class seen, uncapped: (failure, engine, idiom + declared dialect) -> scenarios
+            ctx.extra_cov.setdefault("custom_failure_classes", {}).setdefault(f"{info['failure']} | {info['engine']} | {info.get('stage')}", 0)
+            ctx.extra_cov["custom_failure_classes"][f"{info['failure']} | {info['engine']} | {info.get('stage')}"] += 1
         known = any(core._finding_matches(f, dict(info)) for f in ctx.findings)  # a recorded finding has its minimised witness in the corpus already
-        if cls in reported or (not known and len([c for c in reported if c[-1] != "known"]) >= 4):
+        # at most 4 new classes are minimised and reported per run; the custom family (one class per idiom x declared dialect x engine) has its own allowance
+        mine = [c for c in reported if c[-1] != "known" and (c[0] == "custom") == (family == "custom")]
+        if cls in reported or (not known and len(mine) >= (6 if family == "custom" else 4)):
             continue
         reported.add(cls if not known else cls + ("known",))
 
         def still(cand, family=family, info=info, engs=engs):
             ps = evaluate(ctx, [(family, cand)], engs, parallel=False, record=False)
-            return any(p[4]["failure"] == info["failure"] and p[4]["engine"] == info["engine"] for p in ps)
+            return any(p[4]["failure"] == info["failure"] and p[4]["engine"] == info["engine"] and (family != "custom" or p[4].get("stage") == info.get("stage")) for p in ps)
 
         small = case
         if family != "creator" and "spark" not in engs and not ctx.replay and not known:
             small = shrink(family, case, engs, still)
             ps = evaluate(ctx, [(family, small)], engs, parallel=False, record=False)
+            ps = [p for p in ps if p[4].get("stage") == info.get("stage")] or ps
             if ps:
                 family, small, what, detail, info, results, engs = ps[0]
             else:
